@@ -43,6 +43,7 @@ def sym_entry(kind, loc, ex):
     else:
         from pyvc.sym import KBV
         f["mode"] = KBV.fresh("mode")   # a bit vector: masks applied to it are modelled (a narrower mask than 0o7777 loses set-id / sticky bits)
+        ex.assume((f["mode"] & 0o7777) == f["mode"])   # an entry's mode is its permission bits (the type is the entry's class)
     flags = {"is_reg": kind == "file", "is_dir": kind == "dir", "is_sym": kind == "sym", "is_fifo": kind == "fifo", "is_dev": kind in ("chr", "blk")}
     f.update(flags)
     if kind == "sym":
@@ -77,6 +78,10 @@ def t_entry_roundtrip(ex):
     class Src(list):
         def extractfile(self, name):
             return None
+    # what the archive format keeps of a member's mode: the twelve permission bits (tarfile masks the header field with 0o7777)
+    import stat as _stat
+    if isinstance(t.mode, int):
+        t.mode = t.mode & 0o7777
     src = Src([t])
     r = call(it, it.target(TAR, "archive_to_fsobj"), src)
     if not r.raised:
@@ -94,6 +99,9 @@ def t_entry_roundtrip(ex):
     if not ok_shape:
         return
     k = made[0][3]
+    if want_cls == "fsDev":
+        ex.oblige(f"{P}.archive_to_fsobj.requires.fsDev_gets_a_mode_with_the_device_type_and_real_device_numbers",
+                  isinstance(k.get("mode"), int) and _stat.S_IFMT(k["mode"]) == (_stat.S_IFCHR if kind == "chr" else _stat.S_IFBLK), kind="callee-precondition")
     same = lambda a, b: SBool(a.t == b.t) if isinstance(a, SInt) and isinstance(b, SInt) else (a is b or a == b)
     ex.oblige(f"{P}.ensures.mode_owner_and_mtime_come_back", And(*[same(k.get(a), x.fields[a]) for a in ("mode", "uid", "gid", "mtime")]))
     if kind == "sym":
@@ -186,6 +194,14 @@ def enum_tarballs(seed):
                     os.symlink("real", os.path.join(src, "ln1"))
                 if not os.path.lexists(os.path.join(src, "ln2")):
                     os.symlink("ln1", os.path.join(src, "ln2"))
+            # device nodes (character and block), when the sandbox lets us create them
+            if rnd.random() < .5:
+                import stat as _st
+                try:
+                    os.mknod(os.path.join(src, "dev-null"), 0o666 | _st.S_IFCHR, os.makedev(1, 3))
+                    os.mknod(os.path.join(src, "dev-loop"), 0o660 | _st.S_IFBLK, os.makedev(7, rnd.randrange(4)))
+                except (PermissionError, OSError, FileExistsError):
+                    pass
             # a hardlink group of zero-length files (.keep / lock files) next to the non-empty ones
             if rnd.random() < .6:
                 e1 = os.path.join(src, "empty-1")
@@ -233,6 +249,8 @@ def enum_tarballs(seed):
                     for attr in ("mode", "uid", "gid", "mtime"):
                         if int(getattr(x, attr)) != int(getattr(y, attr)):
                             probs.append(f"{loc}: {attr} {getattr(x, attr)} came back as {getattr(y, attr)}")
+                    if x.is_dev and (x.major, x.minor) != (y.major, y.minor):
+                        probs.append(f"{loc}: device numbers {x.major}:{x.minor} came back as {y.major}:{y.minor}")
                     if x.is_sym and x.target != y.target:
                         probs.append(f"{loc}: target {x.target!r} came back as {y.target!r}")
                     if x.is_reg and x.data.bytes_fileobj().read() != y.data.bytes_fileobj().read():
